@@ -276,16 +276,27 @@ func histHash(h []rec) uint64 {
 	return x
 }
 
+var deadlockSeen atomic.Bool
+
 // joinOrDeadlock waits for the goroutines of a free-running round. A round
 // whose goroutines are all parked for good (stop-the-world stack snapshot, see
 // core.Deadlocked) is a violation "deadlock"; a round that merely takes longer
 // than the generous wall clock is inconclusive. Returns true when joined.
 func joinOrDeadlock(c *core.Ctx, wg *sync.WaitGroup, sig, what string, extra map[string]any) bool {
-	st, where := core.WaitOrDeadlock(wg, 20*time.Second, 100*time.Second)
+	// healthy rounds join within milliseconds; the first snapshot is taken after 3 s
+	// (the verdict is a logical fact, not a timeout, so taking it early is safe). Once a
+	// deadlock has been proven in this process the following rounds look after 150 ms:
+	// a tree that deadlocks in every round must not cost 3 s per round.
+	first := 3 * time.Second
+	if deadlockSeen.Load() {
+		first = 150 * time.Millisecond
+	}
+	st, where := core.WaitOrDeadlock(wg, first, 100*time.Second)
 	switch st {
 	case "done":
 		return true
 	case "deadlock":
+		deadlockSeen.Store(true)
 		c.Violate(sig+":deadlock", what+" never finishes: every goroutine of the round is parked for good ("+where+")", extra)
 	default:
 		c.Inconclusive(what + " did not finish within the watchdog (no deadlock proven)")
